@@ -87,7 +87,12 @@ let gen_history (idx : int) (prof : eprofile) (oc : out_channel) =
     | [] -> ()
     | l ->
       let route = pick l in
-      let mk_name () = join (List.map (fun lv -> if lv = [nn 43] then bs (pick ["x"; "y"]) else if lv = [nn 35] then bs ("n" ^ string_of_int (rnd 4)) else lv) route) in
+      (* a filter ending in /# also matches its parent level: now and then the message is on the parent *)
+      let mk_name () =
+        let lvls = (match List.rev route with
+            | last :: (_ :: _ as rest) when last = [nn 35] && rnd 4 = 0 -> List.rev rest
+            | _ -> route) in
+        join (List.map (fun lv -> if lv = [nn 43] then bs (pick ["x"; "y"]) else if lv = [nn 35] then bs ("n" ^ string_of_int (rnd 4)) else lv) lvls) in
       let name0 = mk_name () in
       let same = coin () in
       let q = pickw [ (3, 0); (4, 1); (4, 2) ] in
